@@ -298,7 +298,9 @@ def step (d : DS) (line : String) : DS × String :=
           let run := fun (ρ : Orders) =>
             let res := execBlock ρ env fl hdr (rwf h) (ids h ++ ids 0).eraseDups d.st txs
             ("ev=" ++ ",".intercalate (res.evicted.map hex32) ++ " rc=" ++ showReceipts res.receipts
-              ++ " " ++ dump d res.st ++ " df=" ++ toString (res.st.diff hdr.castor) ++ ":" ++ toString res.st.working, res.st)
+              ++ " " ++ dump d res.st ++ " df=" ++ toString (res.st.diff hdr.castor) ++ ":" ++ toString res.st.working
+              ++ " rr=" ++ (if res.receipts.all (fun r => r.extra == 0) && !txs.any (fun t => isOpaqueTyp t.typ)
+                            then toHex (receiptsRoot h res.receipts) else "-"), res.st)
           match underRhos run with
           | some (o, s) => ({ d with st := s }, o)
           | none => (d, "rho-diff")
